@@ -2143,8 +2143,11 @@ def normalize_module(tree: ast.Module, extern=None) -> ast.Module:
             n2.single_use_dicts(n)
             n2.flag_finally(n)
             n2.exitstack_rollback(n)
+            n2.exitstack_enter(n)
             n2.sink_selected_calls(n)
             n2.specialise_strategies(n)
+            while n2.conditional_pipelines(n):
+                pass
             n2.inline_pure_flags(n)
             n2.first_match_loops(n)
             n2.local_sorts(n)
@@ -2163,6 +2166,7 @@ def normalize_module(tree: ast.Module, extern=None) -> ast.Module:
         for n in ast.walk(tree):
             if isinstance(n, ast.FunctionDef):
                 n2.filtered_loops(n)
+                n2.split_tuple_assigns(n)
         tree = n2.ItemsLoops().visit(tree)
         tree = Unroll().visit(tree)
         if _round and ast.dump(tree) == before:
